@@ -994,14 +994,19 @@ def obligations(tier):
         "<= 2 overlays, <= 2 faces")
     wit("overlays", "h_overlay_w", [{"n": 1, "nf": 1}])
     wins = [(a, l) for a in range(4) for l in range(4) if a + l <= 3]
-    tsl = [{"cfg": "v20", "a0": a, "l0": l, "ch": ch} for (a, l) in wins for ch in ((1,) if quick and l == 0 else (0, 1, 2))]
-    for c in (("v19", "chaos", "vitamin", "l4d2") if quick else [c for c in CONFIGS if c != "v20"]):
-        tsl += [{"cfg": c, "a0": a, "l0": l, "ch": 1} for (a, l) in (((0, 2), (1, 1)) if quick else wins)]
+    INTS = {"contents": 0x2001, "disp": 3, "cluster": 5, "area": 2, "lflags": 5, "water": -1, "wdist": 77, "area_ind": 4}
+    # "shape" slices: the second brush's window and the tree shape are symbolic, integer fields concrete;
+    # "ints" slices: every integer field symbolic, windows concrete (overlapping tail: sides [0,1] and [1,2]).
+    tsl = [dict(INTS, cfg="v20", a0=a, l0=l, ch=ch) for (a, l) in wins for ch in ((1,) if quick and l == 0 else (0, 1, 2))]
+    for c in (("v20", "v19", "chaos", "vitamin", "l4d2") if quick else list(CONFIGS)):
+        tsl.append({"cfg": c, "a0": 0, "l0": 2, "a1": 1, "l1": 2, "ch": 1})
+        if not quick:
+            tsl += [dict(INTS, cfg=c, a0=a, l0=l, ch=1) for (a, l) in wins if c != "v20"]
     add("tree", "h_tree", tsl,
         "brushes whose side lists are windows of one shared pool (find_or_extend in the real writer), leafs (area/flags packing per layout, "
         "ambient block in v19), two-node tree with leaf / node children and a child node appended by the writer",
-        "2 brushes over 3 sides, 2 leafs, 2 nodes; all integer fields of brush 0 / leaf 0 / node 0 symbolic")
-    wit("tree", "h_tree_w", [{"cfg": "v20", "a0": 0, "l0": 2, "ch": 0}])
+        "2 brushes over 3 sides, 2 leafs, 2 nodes; slices with symbolic windows/tree shape (ints concrete) and slices with all integer fields of brush 0 / leaf 0 / node 0 symbolic (windows concrete)")
+    wit("tree", "h_tree_w", [dict(INTS, cfg="v20", a0=0, l0=2, ch=0), {"cfg": "v19", "a0": 0, "l0": 2, "a1": 2, "l1": 1, "ch": 1}])
     add("visibility", "h_vis", [{"n": n} for n in (0, 1, 2)], "PVS/PAS rows survive the run-length coded lump with its offset table", "<= 2 clusters, 1 symbolic byte per row")
     wit("visibility", "h_vis_w", [{"n": 1}])
     add("detail", "h_detail", [{"n": n} for n in (0, 1, 2)],
